@@ -3,12 +3,14 @@
   engine/endgame.cpp and engine/position_bitboards.h, keeping the explicit `side == WHITE ? … : …` choices
   (msb vs lsb, relative ranks, NORTH vs SOUTH), C++ integer division truncating toward zero (`Int.tdiv`),
   and the pawn-key cache of PositionScorer (HashMap: slot = key mod 2^18, probe compares keys, insert
-  overwrites, clear resets whole entries).  Evaluation constants are written out here; the correspondence
-  check compares every evaluation with the C++ (a changed constant shows up as a disagreement).
+  overwrites, clear resets whole entries).  Evaluation constants come from Gen/EvalConsts.lean (value.h objects as compiled, endgame.cpp tables
+  from the source text): a retuned constant moves the model with the code; the inline literals of score.cpp
+  (e.g. `10 * popcount(support)`) are written out here and are covered by the correspondence check.
 -/
 import ChessVerif.Model.Movegen
 import ChessVerif.Model.Bitbase
 import ChessVerif.Gen.Consts
+import ChessVerif.Gen.EvalConsts
 namespace Chess
 
 structure Sc where
@@ -21,41 +23,36 @@ instance : Sub Sc := ⟨fun a b => ⟨a.mg - b.mg, a.eg - b.eg⟩⟩
 def Sc.scale (s : Sc) (v : Int) : Sc := ⟨s.mg * v, s.eg * v⟩
 def Sc.ofV (v : Int) : Sc := ⟨v, v⟩
 
-def pieceValue : Nat → Sc
-  | 1 => ⟨300, 370⟩ | 2 => ⟨890, 880⟩ | 3 => ⟨900, 950⟩ | 4 => ⟨1400, 1550⟩ | 5 => ⟨2900, 2800⟩ | _ => ⟨0, 0⟩
-def mobilityBonus : Nat → Sc
-  | 1 => ⟨5, 10⟩ | 2 => ⟨12, 24⟩ | 3 => ⟨18, 8⟩ | 4 => ⟨6, 24⟩ | 5 => ⟨4, 12⟩ | 6 => ⟨0, 10⟩ | _ => ⟨0, 0⟩
-def controlSpace : Nat → Sc
-  | 1 => ⟨20, 30⟩ | 2 => ⟨20, 0⟩ | 3 => ⟨10, 5⟩ | 4 => ⟨10, 10⟩ | 5 => ⟨10, 20⟩ | _ => ⟨0, 0⟩
-def kingProtectorPenalty : Nat → Sc
-  | 2 => ⟨-6, -4⟩ | 3 => ⟨-5, -3⟩ | _ => ⟨0, 0⟩
-def kingAttackerPenalty : Nat → Sc
-  | 2 => ⟨-7, -4⟩ | 3 => ⟨-4, -3⟩ | _ => ⟨0, 0⟩
-def ROOK_SEMIOPEN_FILE_BONUS : Sc := ⟨10, 11⟩
-def ROOK_OPEN_FILE_BONUS : Sc := ⟨20, 40⟩
-def TRAPPED_ROOK_PENALTY : Sc := ⟨-50, -10⟩
-def BISHOP_PAIR_BONUS : Sc := ⟨50, 60⟩
-def CONNECTED_ROOKS_BONUS : Sc := ⟨20, 10⟩
-def OUTPOST_KNIGHT_BONUS : Sc := ⟨25, 10⟩
-def OUTPOST_BISHOP_BONUS : Sc := ⟨20, 10⟩
-def PAWN_CONTROL_CENTER_BONUS : Sc := ⟨30, 30⟩
-def PASSED_PAWN_BONUS : Sc := ⟨20, 40⟩
-def passedPawnRankWeight : Nat → Int
-  | 1 => 1 | 2 => 1 | 3 => 2 | 4 => 3 | 5 => 6 | 6 => 10 | _ => 0
-def DOUBLE_PAWN_PENALTY : Sc := ⟨-15, -45⟩
-def connectedPawnsBonus : Nat → Int
-  | 2 => 2 | 3 => 5 | 4 => 20 | 5 => 40 | 6 => 80 | _ => 0
-def BACKWARD_PAWN_PENALTY : Sc := ⟨-30, -100⟩
-def ISOLATED_PAWN_PENALTY : Sc := ⟨-20, -80⟩
-def KING_SAFETY_BONUS : Sc := ⟨30, 0⟩
-def SAFE_KNIGHT : Sc := ⟨10, 2⟩
-def CONTROL_CENTER_KNIGHT : Sc := ⟨10, 10⟩
-def VULNERABLE_QUEEN_PENALTY : Sc := ⟨-30, -15⟩
-def WEAK_BACKRANK_PENALTY : Sc := ⟨-75, -100⟩
-def WEAK_KING_DIAGONALS : Sc := ⟨-5, 0⟩
-def WEAK_KING_LINES : Sc := ⟨-7, 0⟩
-def KING_PAWN_PROXIMITY_PENALTY : Sc := ⟨0, -5⟩
-def PAWNS_ON_SAME_COLOR_AS_BISHOP_PENALTY : Sc := ⟨-3, -5⟩
+/- evaluation constants: value.h objects as compiled into the current build (Gen/EvalConsts.lean, regenerated on every run) -/
+def scTab (mg eg : List Int) (k : Nat) : Sc := ⟨mg.getD k 0, eg.getD k 0⟩
+def pieceValue (k : Nat) : Sc := scTab Gen.PIECE_VALUE_MG Gen.PIECE_VALUE_EG k
+def mobilityBonus (k : Nat) : Sc := scTab Gen.MOBILITY_BONUS_MG Gen.MOBILITY_BONUS_EG k
+def controlSpace (k : Nat) : Sc := scTab Gen.CONTROL_SPACE_MG Gen.CONTROL_SPACE_EG k
+def kingProtectorPenalty (k : Nat) : Sc := scTab Gen.KING_PROTECTOR_PENALTY_MG Gen.KING_PROTECTOR_PENALTY_EG k
+def kingAttackerPenalty (k : Nat) : Sc := scTab Gen.KING_ATTACKER_PENALTY_MG Gen.KING_ATTACKER_PENALTY_EG k
+def ROOK_SEMIOPEN_FILE_BONUS : Sc := ⟨Gen.ROOK_SEMIOPEN_FILE_BONUS_MG, Gen.ROOK_SEMIOPEN_FILE_BONUS_EG⟩
+def ROOK_OPEN_FILE_BONUS : Sc := ⟨Gen.ROOK_OPEN_FILE_BONUS_MG, Gen.ROOK_OPEN_FILE_BONUS_EG⟩
+def TRAPPED_ROOK_PENALTY : Sc := ⟨Gen.TRAPPED_ROOK_PENALTY_MG, Gen.TRAPPED_ROOK_PENALTY_EG⟩
+def BISHOP_PAIR_BONUS : Sc := ⟨Gen.BISHOP_PAIR_BONUS_MG, Gen.BISHOP_PAIR_BONUS_EG⟩
+def CONNECTED_ROOKS_BONUS : Sc := ⟨Gen.CONNECTED_ROOKS_BONUS_MG, Gen.CONNECTED_ROOKS_BONUS_EG⟩
+def OUTPOST_KNIGHT_BONUS : Sc := ⟨Gen.OUTPOST_KNIGHT_BONUS_MG, Gen.OUTPOST_KNIGHT_BONUS_EG⟩
+def OUTPOST_BISHOP_BONUS : Sc := ⟨Gen.OUTPOST_BISHOP_BONUS_MG, Gen.OUTPOST_BISHOP_BONUS_EG⟩
+def PAWN_CONTROL_CENTER_BONUS : Sc := ⟨Gen.PAWN_CONTROL_CENTER_BONUS_MG, Gen.PAWN_CONTROL_CENTER_BONUS_EG⟩
+def PASSED_PAWN_BONUS : Sc := ⟨Gen.PASSED_PAWN_BONUS_MG, Gen.PASSED_PAWN_BONUS_EG⟩
+def passedPawnRankWeight (r : Nat) : Int := Gen.PASSED_PAWN_RANK_WEIGHT.getD r 0
+def DOUBLE_PAWN_PENALTY : Sc := ⟨Gen.DOUBLE_PAWN_PENALTY_MG, Gen.DOUBLE_PAWN_PENALTY_EG⟩
+def connectedPawnsBonus (r : Nat) : Int := Gen.CONNECTED_PAWNS_BONUS.getD r 0
+def BACKWARD_PAWN_PENALTY : Sc := ⟨Gen.BACKWARD_PAWN_PENALTY_MG, Gen.BACKWARD_PAWN_PENALTY_EG⟩
+def ISOLATED_PAWN_PENALTY : Sc := ⟨Gen.ISOLATED_PAWN_PENALTY_MG, Gen.ISOLATED_PAWN_PENALTY_EG⟩
+def KING_SAFETY_BONUS : Sc := ⟨Gen.KING_SAFETY_BONUS_MG, Gen.KING_SAFETY_BONUS_EG⟩
+def SAFE_KNIGHT : Sc := ⟨Gen.SAFE_KNIGHT_MG, Gen.SAFE_KNIGHT_EG⟩
+def CONTROL_CENTER_KNIGHT : Sc := ⟨Gen.CONTROL_CENTER_KNIGHT_MG, Gen.CONTROL_CENTER_KNIGHT_EG⟩
+def VULNERABLE_QUEEN_PENALTY : Sc := ⟨Gen.VULNERABLE_QUEEN_PENALTY_MG, Gen.VULNERABLE_QUEEN_PENALTY_EG⟩
+def WEAK_BACKRANK_PENALTY : Sc := ⟨Gen.WEAK_BACKRANK_PENALTY_MG, Gen.WEAK_BACKRANK_PENALTY_EG⟩
+def WEAK_KING_DIAGONALS : Sc := ⟨Gen.WEAK_KING_DIAGONALS_MG, Gen.WEAK_KING_DIAGONALS_EG⟩
+def WEAK_KING_LINES : Sc := ⟨Gen.WEAK_KING_LINES_MG, Gen.WEAK_KING_LINES_EG⟩
+def KING_PAWN_PROXIMITY_PENALTY : Sc := ⟨Gen.KING_PAWN_PROXIMITY_PENALTY_MG, Gen.KING_PAWN_PROXIMITY_PENALTY_EG⟩
+def PAWNS_ON_SAME_COLOR_AS_BISHOP_PENALTY : Sc := ⟨Gen.PAWNS_ON_SAME_COLOR_AS_BISHOP_PENALTY_MG, Gen.PAWNS_ON_SAME_COLOR_AS_BISHOP_PENALTY_EG⟩
 
 def VALUE_NONE : Int := Gen.VALUE_NONE
 def VALUE_MATE : Int := Gen.VALUE_MATE
@@ -165,6 +162,9 @@ def scoreKingSafety (b : BBs) (board : List Nat) (castling side : Nat) : Sc :=
            else s
   (bitsOf (b.ck side PAWN)).foldl (fun acc p => acc + KING_PAWN_PROXIMITY_PENALTY.scale (distance k p)) s
 
+/-- `if (c) s += k` as a term of a sum -/
+def optSc (c : Prop) [Decidable c] (k : Sc) : Sc := if c then k else ⟨0, 0⟩
+
 def scoreKing (b : BBs) (board : List Nat) (castling side : Nat) (own opp : Setup) : Sc :=
   let k := kingSq board side
   let ok := kingSq board (1 - side)
@@ -172,109 +172,109 @@ def scoreKing (b : BBs) (board : List Nat) (castling side : Nat) (own opp : Setu
   let secondRank := if side = 0 then 1 else 6
   let kingArea := kingMask k ||| sqBB k
   let moves := kingMask k &&& bnot (attackedSquares b board (1 - side))
-  let v := scoreKingSafety b board castling side
-  let v := v + (mobilityBonus KING).scale (pc moves)
-  let v :=
-    if rankOf k = firstRank ∧ (b.ck (1 - side) ROOK ||| b.ck (1 - side) QUEEN) ≠ 0 then
-      let area := kingArea &&& rankBB secondRank
-      let blocked := b.color side ||| opp.attPiece ||| opp.attPawn ||| kingMask ok
-      if (area &&& blocked) = area then v + WEAK_BACKRANK_PENALTY else v
-    else v
+  let area := kingArea &&& rankBB secondRank
+  let blocked := b.color side ||| opp.attPiece ||| opp.attPawn ||| kingMask ok
   let occ := b.all &&& bnot own.kingBlockers
-  let v := if b.ck (1 - side) QUEEN ≠ 0 ∨ (b.ck (1 - side) BISHOP &&& colorSquares (sqColor k)) ≠ 0
-           then v + WEAK_KING_DIAGONALS.scale (pc (bishopAttack k occ)) else v
-  if b.ck (1 - side) QUEEN ≠ 0 ∨ b.ck (1 - side) ROOK ≠ 0 then v + WEAK_KING_LINES.scale (pc (rookAttack k occ)) else v
+  scoreKingSafety b board castling side
+  + (mobilityBonus KING).scale (pc moves)
+  + optSc ((rankOf k = firstRank ∧ (b.ck (1 - side) ROOK ||| b.ck (1 - side) QUEEN) ≠ 0) ∧ (area &&& blocked) = area) WEAK_BACKRANK_PENALTY
+  + optSc (b.ck (1 - side) QUEEN ≠ 0 ∨ (b.ck (1 - side) BISHOP &&& colorSquares (sqColor k)) ≠ 0) (WEAK_KING_DIAGONALS.scale (pc (bishopAttack k occ)))
+  + optSc (b.ck (1 - side) QUEEN ≠ 0 ∨ b.ck (1 - side) ROOK ≠ 0) (WEAK_KING_LINES.scale (pc (rookAttack k occ)))
+
+def knightScore (b : BBs) (board : List Nat) (side : Nat) (own opp : Setup) (k ok sq : Nat) : Sc :=
+  let att := knightMask sq
+  pieceValue KNIGHT
+  + optSc ((sqBB sq &&& own.attPawn) ≠ 0) SAFE_KNIGHT
+  + (controlSpace KNIGHT).scale (pc (att &&& opponentRanks side))
+  + CONTROL_CENTER_KNIGHT.scale (pc (att &&& centerBB))
+  + (kingProtectorPenalty KNIGHT).scale (distance k sq)
+  + (kingAttackerPenalty KNIGHT).scale (distance ok sq)
+  + (mobilityBonus KNIGHT).scale (pc (realMoves b board side own opp sq att))
+  + optSc ((own.outposts &&& sqBB sq) ≠ 0) OUTPOST_KNIGHT_BONUS
+
+def bishopScore (b : BBs) (board : List Nat) (side : Nat) (own opp : Setup) (k ok sq : Nat) : Sc :=
+  let occ := b.all
+  let bq := b.ck side BISHOP ||| b.ck side QUEEN
+  pieceValue BISHOP
+  + (controlSpace BISHOP).scale (pc (bishopAttack sq (occ &&& bnot bq) &&& opponentRanks side))
+  + (mobilityBonus BISHOP).scale (pc (realMoves b board side own opp sq (bishopAttack sq occ)))
+  + (kingProtectorPenalty BISHOP).scale (distance k sq)
+  + (kingAttackerPenalty BISHOP).scale (distance ok sq)
+  + PAWNS_ON_SAME_COLOR_AS_BISHOP_PENALTY.scale (pc (b.ck side PAWN &&& colorSquares (sqColor sq)))
+  + optSc ((own.outposts &&& sqBB sq) ≠ 0) OUTPOST_BISHOP_BONUS
+
+def rookScore (b : BBs) (board : List Nat) (castling side : Nat) (own opp : Setup) (k sq : Nat) : Sc :=
+  let occ := b.all
+  let rq := b.ck side ROOK ||| b.ck side QUEEN
+  let fbb := fileBB (fileOf sq)
+  let rbb := rankBB (rankOf sq)
+  let moves := realMoves b board side own opp sq (rookAttack sq occ)
+  pieceValue ROOK
+  + (controlSpace ROOK).scale (pc (rookAttack sq (occ &&& bnot rq) &&& opponentRanks side))
+  + optSc ((fbb &&& b.kind PAWN) = 0) ROOK_OPEN_FILE_BONUS
+  + optSc ((fbb &&& b.ck side PAWN) = 0 ∧ (fbb &&& b.ck (1 - side) PAWN) ≠ 0) ROOK_SEMIOPEN_FILE_BONUS
+  + optSc (moreThanOne (fbb &&& b.ck side ROOK) ∨ moreThanOne (rbb &&& b.ck side ROOK)) ⟨10, 5⟩
+  + (mobilityBonus ROOK).scale (pc moves)
+  + optSc (popcount moves ≤ 3 ∧ (decide (fileOf k < 4) = decide (fileOf sq < fileOf k)))
+      (TRAPPED_ROOK_PENALTY.scale (if castling &&& castlingRightsOf side ≠ 0 then 1 else 2))
+
+def queenScore (b : BBs) (board : List Nat) (side : Nat) (own opp : Setup) (sq : Nat) : Sc :=
+  let occ := b.all
+  let bq := b.ck side BISHOP ||| b.ck side QUEEN
+  let rq := b.ck side ROOK ||| b.ck side QUEEN
+  let snipers := (pseudoBishop sq &&& b.ck (1 - side) BISHOP) ||| (pseudoRook sq &&& b.ck (1 - side) ROOK)
+  let rest := occ &&& bnot (snipers ||| sqBB sq)
+  let vulnerable := (bitsOf snipers).any (fun sn => let x := lines sq sn &&& rest; x ≠ 0 ∧ !moreThanOne x)
+  pieceValue QUEEN
+  + (controlSpace QUEEN).scale (pc (bishopAttack sq (occ &&& bnot bq) &&& opponentRanks side))
+  + (controlSpace QUEEN).scale (pc (rookAttack sq (occ &&& bnot rq) &&& opponentRanks side))
+  + optSc (vulnerable = true) VULNERABLE_QUEEN_PENALTY
+  + (mobilityBonus QUEEN).scale (pc (realMoves b board side own opp sq (queenAttack sq occ)))
 
 def scorePiecesForSide (b : BBs) (board : List Nat) (castling side : Nat) (own opp : Setup) : Sc :=
   let k := kingSq board side
   let ok := kingSq board (1 - side)
-  let occ := b.all
-  let bq := b.ck side BISHOP ||| b.ck side QUEEN
-  let rq := b.ck side ROOK ||| b.ck side QUEEN
-  let knights := (bitsOf (b.ck side KNIGHT)).foldl (fun acc sq =>
-    let att := knightMask sq
-    let s := pieceValue KNIGHT
-    let s := if (sqBB sq &&& own.attPawn) ≠ 0 then s + SAFE_KNIGHT else s
-    let s := s + (controlSpace KNIGHT).scale (pc (att &&& opponentRanks side))
-    let s := s + CONTROL_CENTER_KNIGHT.scale (pc (att &&& centerBB))
-    let s := s + (kingProtectorPenalty KNIGHT).scale (distance k sq)
-    let s := s + (kingAttackerPenalty KNIGHT).scale (distance ok sq)
-    let s := s + (mobilityBonus KNIGHT).scale (pc (realMoves b board side own opp sq att))
-    let s := if (own.outposts &&& sqBB sq) ≠ 0 then s + OUTPOST_KNIGHT_BONUS else s
-    acc + s) (⟨0, 0⟩ : Sc)
-  let bishops := (bitsOf (b.ck side BISHOP)).foldl (fun acc sq =>
-    let att := bishopAttack sq occ
-    let s := pieceValue BISHOP
-    let s := s + (controlSpace BISHOP).scale (pc (bishopAttack sq (occ &&& bnot bq) &&& opponentRanks side))
-    let s := s + (mobilityBonus BISHOP).scale (pc (realMoves b board side own opp sq att))
-    let s := s + (kingProtectorPenalty BISHOP).scale (distance k sq)
-    let s := s + (kingAttackerPenalty BISHOP).scale (distance ok sq)
-    let s := s + PAWNS_ON_SAME_COLOR_AS_BISHOP_PENALTY.scale (pc (b.ck side PAWN &&& colorSquares (sqColor sq)))
-    let s := if (own.outposts &&& sqBB sq) ≠ 0 then s + OUTPOST_BISHOP_BONUS else s
-    acc + s) (⟨0, 0⟩ : Sc)
-  let bishops := if (b.ck side BISHOP &&& whiteSquares) ≠ 0 ∧ (b.ck side BISHOP &&& blackSquares) ≠ 0 then bishops + BISHOP_PAIR_BONUS else bishops
-  let rooks := (bitsOf (b.ck side ROOK)).foldl (fun acc sq =>
-    let s := pieceValue ROOK
-    let s := s + (controlSpace ROOK).scale (pc (rookAttack sq (occ &&& bnot rq) &&& opponentRanks side))
-    let fbb := fileBB (fileOf sq)
-    let rbb := rankBB (rankOf sq)
-    let s := if (fbb &&& b.kind PAWN) = 0 then s + ROOK_OPEN_FILE_BONUS else s
-    let s := if (fbb &&& b.ck side PAWN) = 0 ∧ (fbb &&& b.ck (1 - side) PAWN) ≠ 0 then s + ROOK_SEMIOPEN_FILE_BONUS else s
-    let s := if moreThanOne (fbb &&& b.ck side ROOK) ∨ moreThanOne (rbb &&& b.ck side ROOK) then s + ⟨10, 5⟩ else s
-    let moves := realMoves b board side own opp sq (rookAttack sq occ)
-    let s := s + (mobilityBonus ROOK).scale (pc moves)
-    let s :=
-      if popcount moves ≤ 3 ∧ (decide (fileOf k < 4) = decide (fileOf sq < fileOf k)) then
-        let canCastle := castling &&& castlingRightsOf side ≠ 0
-        s + TRAPPED_ROOK_PENALTY.scale (if canCastle then 1 else 2)
-      else s
-    acc + s) (⟨0, 0⟩ : Sc)
-  let queens := (bitsOf (b.ck side QUEEN)).foldl (fun acc sq =>
-    let s := pieceValue QUEEN
-    let s := s + (controlSpace QUEEN).scale (pc (bishopAttack sq (occ &&& bnot bq) &&& opponentRanks side))
-    let s := s + (controlSpace QUEEN).scale (pc (rookAttack sq (occ &&& bnot rq) &&& opponentRanks side))
-    let snipers := (pseudoBishop sq &&& b.ck (1 - side) BISHOP) ||| (pseudoRook sq &&& b.ck (1 - side) ROOK)
-    let rest := occ &&& bnot (snipers ||| sqBB sq)
-    let vulnerable := (bitsOf snipers).any (fun sn => let x := lines sq sn &&& rest; x ≠ 0 ∧ !moreThanOne x)
-    let s := if vulnerable then s + VULNERABLE_QUEEN_PENALTY else s
-    let s := s + (mobilityBonus QUEEN).scale (pc (realMoves b board side own opp sq (queenAttack sq occ)))
-    acc + s) (⟨0, 0⟩ : Sc)
+  let knights := (bitsOf (b.ck side KNIGHT)).foldl (fun acc sq => acc + knightScore b board side own opp k ok sq) (⟨0, 0⟩ : Sc)
+  let bishops := (bitsOf (b.ck side BISHOP)).foldl (fun acc sq => acc + bishopScore b board side own opp k ok sq) (⟨0, 0⟩ : Sc)
+  let bishops := bishops + optSc ((b.ck side BISHOP &&& whiteSquares) ≠ 0 ∧ (b.ck side BISHOP &&& blackSquares) ≠ 0) BISHOP_PAIR_BONUS
+  let rooks := (bitsOf (b.ck side ROOK)).foldl (fun acc sq => acc + rookScore b board castling side own opp k sq) (⟨0, 0⟩ : Sc)
+  let queens := (bitsOf (b.ck side QUEEN)).foldl (fun acc sq => acc + queenScore b board side own opp sq) (⟨0, 0⟩ : Sc)
   knights + bishops + rooks + queens + scoreKing b board castling side own opp
 
-/-- `score_pawns_for_side<side>` -/
-def scorePawnsForSide (b : BBs) (side : Nat) : Sc :=
+/-- one pawn of `score_pawns_for_side<side>` -/
+def pawnTerm (b : BBs) (side sq : Nat) : Sc :=
   let ours := b.ck side PAWN
   let theirs := b.ck (1 - side) PAWN
   let upD := if side = 0 then Dir.N else Dir.S
   let downD := if side = 0 then Dir.S else Dir.N
-  (bitsOf ours).foldl (fun acc sq =>
-    let r := rankOf sq
-    let f := fileOf sq
-    let relRank := if side = 0 then r else 7 - r
-    let attacks := pawnAttacks side (sqBB sq)
-    let neighbours := ours &&& neighbourFiles f
-    let phalanx := neighbours &&& rankBB r
-    let support := neighbours &&& rankBB (if side = 0 then r - 1 else r + 1)
-    let lever := theirs &&& attacks
-    let leverPush := theirs &&& shift upD attacks
-    let opposed := theirs &&& passedPawnBB side sq
-    let blocked := (theirs &&& shift upD (sqBB sq)) ≠ 0
-    let doubled := (ours &&& shift downD (sqBB sq)) ≠ 0
-    let fwdSq := if side = 0 then sq + 8 else sq - 8
-    let backward := (neighbours &&& passedPawnBB (1 - side) fwdSq) = 0 ∧ (blocked ∨ leverPush ≠ 0)
-    let passed := opposed = 0 ∨ (opposed ^^^ lever) = 0 ∨ ((opposed ^^^ leverPush) = 0 ∧ popcount phalanx ≥ popcount leverPush)
-    let s := pieceValue PAWN
-    let s := s + PAWN_CONTROL_CENTER_BONUS.scale (pc (attacks &&& opponentsCenter side))
-    let s := if doubled then s + DOUBLE_PAWN_PENALTY else s
-    let s :=
-      if (support ||| phalanx) ≠ 0 then
-        let s := s + Sc.ofV (connectedPawnsBonus relRank * (1 + (if phalanx ≠ 0 then 1 else 0) - (if opposed ≠ 0 then 1 else 0)))
-        s + Sc.ofV (10 * pc support)
-      else if neighbours = 0 then s + ISOLATED_PAWN_PENALTY
-      else if backward then s + BACKWARD_PAWN_PENALTY
-      else s
-    let s := if passed then s + PASSED_PAWN_BONUS.scale (passedPawnRankWeight relRank) else s
-    acc + s) (⟨0, 0⟩ : Sc)
+  let r := rankOf sq
+  let f := fileOf sq
+  let relRank := if side = 0 then r else 7 - r
+  let attacks := pawnAttacks side (sqBB sq)
+  let neighbours := ours &&& neighbourFiles f
+  let phalanx := neighbours &&& rankBB r
+  let support := neighbours &&& rankBB (if side = 0 then r - 1 else r + 1)
+  let lever := theirs &&& attacks
+  let leverPush := theirs &&& shift upD attacks
+  let opposed := theirs &&& passedPawnBB side sq
+  let blocked := (theirs &&& shift upD (sqBB sq)) ≠ 0
+  let doubled := (ours &&& shift downD (sqBB sq)) ≠ 0
+  let fwdSq := if side = 0 then sq + 8 else sq - 8
+  let backward := (neighbours &&& passedPawnBB (1 - side) fwdSq) = 0 ∧ (blocked ∨ leverPush ≠ 0)
+  let passed := opposed = 0 ∨ (opposed ^^^ lever) = 0 ∨ ((opposed ^^^ leverPush) = 0 ∧ popcount phalanx ≥ popcount leverPush)
+  pieceValue PAWN
+  + PAWN_CONTROL_CENTER_BONUS.scale (pc (attacks &&& opponentsCenter side))
+  + optSc doubled DOUBLE_PAWN_PENALTY
+  + (if (support ||| phalanx) ≠ 0 then
+       Sc.ofV (connectedPawnsBonus relRank * (1 + (if phalanx ≠ 0 then 1 else 0) - (if opposed ≠ 0 then 1 else 0))) + Sc.ofV (10 * pc support)
+     else if neighbours = 0 then ISOLATED_PAWN_PENALTY
+     else if backward then BACKWARD_PAWN_PENALTY
+     else ⟨0, 0⟩)
+  + optSc passed (PASSED_PAWN_BONUS.scale (passedPawnRankWeight relRank))
+
+/-- `score_pawns_for_side<side>` -/
+def scorePawnsForSide (b : BBs) (side : Nat) : Sc :=
+  (bitsOf (b.ck side PAWN)).foldl (fun acc sq => acc + pawnTerm b side sq) (⟨0, 0⟩ : Sc)
 
 /-- what the pawn cache stores: white pawn score minus black pawn score (depends on the pawn bitboards only) -/
 def pawnScore (b : BBs) : Sc := scorePawnsForSide b 0 - scorePawnsForSide b 1
@@ -287,25 +287,10 @@ def gamePhaseWeight (board : List Nat) : Int :=
 def combine (s : Sc) (w : Int) : Int := Int.tdiv (s.mg * w + s.eg * (MAX_PIECE_WEIGHTS - w)) MAX_PIECE_WEIGHTS
 
 -- endgames (endgame.cpp) ---------------------------------------------------------------------------------
-def pushToEdge : List Int := [
-  100, 90, 80, 70, 70, 80, 90, 100,
-   90, 60, 50, 40, 40, 50, 60,  90,
-   80, 50, 30, 20, 20, 30, 40,  80,
-   70, 40, 20, 10, 10, 20, 40,  70,
-   70, 40, 20, 10, 10, 20, 40,  70,
-   80, 50, 30, 20, 20, 30, 40,  80,
-   90, 60, 50, 40, 40, 50, 60,  90,
-  100, 90, 80, 70, 70, 80, 90, 100]
-def pushToColorCorner : List Int := [
-  100, 90, 80, 70, 70, 60, 50,  40,
-   90, 60, 50, 40, 40, 50, 60,  50,
-   80, 50, 30, 20, 20, 30, 40,  60,
-   70, 40, 20, 10, 10, 20, 40,  70,
-   70, 40, 20, 10, 10, 20, 40,  70,
-   60, 50, 30, 20, 20, 30, 40,  80,
-   50, 60, 50, 40, 40, 50, 60,  90,
-   40, 50, 60, 70, 70, 80, 90, 100]
-def pushClose : List Int := [0, 7, 6, 5, 4, 3, 2, 1]
+/- the anonymous-namespace tables of endgame.cpp, read from the source text on every run (Gen/EvalConsts.lean) -/
+def pushToEdge : List Int := Gen.PUSH_TO_EDGE_BONUS
+def pushToColorCorner : List Int := Gen.PUSH_TO_COLOR_CORNER_BONUS
+def pushClose : List Int := Gen.PUSH_CLOSE
 def pte (s : Nat) : Int := pushToEdge.getD s 0
 def pcl (d : Nat) : Int := pushClose.getD d 0
 
